@@ -444,6 +444,13 @@ class VFG(object):
             for ak in argkeys[1:2]:
                 self._edge(key, ak, "elem", "numpy.append")
             return
+        if ci.kind == "LIB" and name == "numpy.insert":
+            # np.insert(A, position, value[, axis]): a copy of A with one more entry; the position is an index, not a value that flows into the result
+            if argkeys:
+                self._edge(key, argkeys[0], "copy", "via numpy.insert")
+            for ak in argkeys[2:3]:
+                self._edge(key, ak, "elem", "numpy.insert")
+            return
         for i, ak in enumerate(argkeys):
             self._edge(key, ak, "lib", (name, i))
         for k, ak in kwkeys.items():
